@@ -1,14 +1,60 @@
 (* C11 — space-filling-curve index algebra: property theorems.
-   Statements only; each is closed by [exact] of a lemma proved elsewhere. *)
-From Tbfmm Require Import Base.Prelude Index.MortonDefs Index.MortonProofs.
+   Statements only; each is closed by [exact] of a lemma proved in Index/MortonProofs.v, Index/MortonBits.v
+   (and Index/ListsProofs.v when present). *)
+From Tbfmm Require Import Base.Prelude Index.MortonDefs Index.MortonProofs Index.MortonBits.
 Local Open Scope Z_scope.
 
-(* parent/child/child-code are mutually consistent for every dimension d and every index *)
+(* the bit loops terminate within their fuel for every input: the totalised wrappers never take their default *)
+Theorem C11_unbox_total : forall d i, unbox_opt d i <> None.
+Proof. exact unbox_total. Qed.
+Print Assumptions C11_unbox_total.
+Theorem C11_box_total : forall d p, length p = d -> Forall (fun x => 0 <= x) p -> box_opt d p <> None.
+Proof. exact box_total. Qed.
+Print Assumptions C11_box_total.
+
+(* bit layout: bit m of coordinate j is bit m*d + (d-1-j) of the index — for every dimension and every level *)
+Theorem C11_unbox_bits : forall d i j m, (j < d)%nat -> 0 <= i -> 0 <= m ->
+  Z.testbit (nth j (unbox d i) 0) m = Z.testbit i (m * dz d + (dz d - 1 - Z.of_nat j)).
+Proof. exact unbox_bits. Qed.
+Print Assumptions C11_unbox_bits.
+Theorem C11_box_bits : forall d p j m, length p = d -> Forall (fun x => 0 <= x) p -> (j < d)%nat -> 0 <= m ->
+  Z.testbit (box d p) (m * dz d + (dz d - 1 - Z.of_nat j)) = Z.testbit (nth j p 0) m.
+Proof. exact box_bits. Qed.
+Print Assumptions C11_box_bits.
+
+(* coordinates and indices are in bijection below the level's upper bound *)
+Theorem C11_box_unbox : forall d i, (0 < d)%nat -> 0 <= i -> box d (unbox d i) = i.
+Proof. exact box_unbox. Qed.
+Print Assumptions C11_box_unbox.
+Theorem C11_unbox_box : forall d p, (0 < d)%nat -> length p = d -> Forall (fun x => 0 <= x) p -> unbox d (box d p) = p.
+Proof. exact unbox_box. Qed.
+Print Assumptions C11_unbox_box.
+Theorem C11_box_range : forall d p l, (0 < d)%nat -> 0 <= l -> length p = d -> Forall (fun x => 0 <= x) p ->
+  (Forall (fun x => x < 2 ^ l) p <-> box d p < 2 ^ (l * dz d)).
+Proof. exact box_range. Qed.
+Print Assumptions C11_box_range.
+
+(* the parent of an index is the cell that geometrically contains it; the child code is the octant *)
+Theorem C11_parent_contains : forall d i, (0 < d)%nat -> 0 <= i -> unbox d (parent d i) = map (fun x => x / 2) (unbox d i).
+Proof. exact parent_contains. Qed.
+Print Assumptions C11_parent_contains.
+Theorem C11_child_code_octant : forall d i, (0 < d)%nat -> 0 <= i -> unbox d (child_code d i) = map (fun x => x mod 2) (unbox d i).
+Proof. exact child_code_octant. Qed.
+Print Assumptions C11_child_code_octant.
+Theorem C11_child_coords : forall d p c, (0 < d)%nat -> 0 <= p -> 0 <= c < 2 ^ dz d ->
+  unbox d (child d p c) = map2 (fun x b => 2 * x + b) (unbox d p) (unbox d c).
+Proof. exact child_coords. Qed.
+Print Assumptions C11_child_coords.
+
+(* parent/child/child-code are mutually consistent *)
 Theorem C11_child_parent : forall (d : nat) (p c : Z),
   0 <= c < 2 ^ Z.of_nat d -> parent d (child d p c) = p /\ child_code d (child d p c) = c.
 Proof. exact child_parent. Qed.
 Print Assumptions C11_child_parent.
-
 Theorem C11_parent_child_code : forall (d : nat) (i : Z), child d (parent d i) (child_code d i) = i.
 Proof. exact parent_child_code. Qed.
 Print Assumptions C11_parent_child_code.
+
+(* non-vacuity *)
+Example C11_example : unbox 3 (box 3 [5; 0; 7]) = [5; 0; 7] /\ unbox 3 (parent 3 (box 3 [5; 0; 7])) = [2; 0; 3].
+Proof. vm_compute. split; reflexivity. Qed.
